@@ -13,6 +13,7 @@ import (
 	"fmt"
 	"os"
 	"path/filepath"
+	"regexp"
 	"sort"
 	"strconv"
 	"strings"
@@ -116,7 +117,7 @@ func genLines(t *rapid.T, lang string) []Line {
 	case 13, 14:
 		n = rapid.IntRange(10, 40).Draw(t, "nLinesLong")
 	case 15:
-		n = rapid.IntRange(95, 130).Draw(t, "nLinesVeryLong")
+		n = rapid.IntRange(190, 260).Draw(t, "nLinesVeryLong")
 	}
 	return genLinesN(t, lang, n)
 }
@@ -268,7 +269,7 @@ func genLangs(t *rapid.T) []string {
 }
 
 func genOptions(t *rapid.T, tr *Tree, langs []string) {
-	tr.Name = rapid.SampledFrom([]string{"tree", "t", "src", "proj-1", "java", "my proj", "coca_reporter", "cloc"}).Draw(t, "treeName")
+	tr.Name = rapid.SampledFrom([]string{"tree", "t", "src", "proj-1", "java", "my proj", "cloc"}).Draw(t, "treeName")
 	tr.TopSize = rapid.SampledFrom([]int{1, 2, 3, 30, 0, 4, 5, 7, 10}).Draw(t, "topSize")
 	tr.DirForm = rapid.SampledFrom([]int{0, 0, 1, 2, 3, 4, 5, 6}).Draw(t, "dirForm")
 	if rapid.IntRange(0, 3).Draw(t, "useIncludeExt") == 0 {
@@ -391,7 +392,7 @@ func genTree(t *rapid.T) Tree {
 	// tree under other options or of another tree that shares directory names with the first
 	if tr.DirForm != 4 {
 		switch rapid.IntRange(0, 7).Draw(t, "second") {
-		case 6:
+		case 5:
 			sec := tr
 			sec.Second = nil
 			sec.IncludeExt = nil
@@ -401,7 +402,7 @@ func genTree(t *rapid.T) Tree {
 			}
 			sec.TopSize = rapid.SampledFrom([]int{1, 2, 3, 30, 0, 5}).Draw(t, "secondTopSize")
 			tr.Second = &sec
-		case 7:
+		case 6, 7:
 			nCounted, ignored, nEmpty, nRoot := genCounts(t)
 			sec := genShape(t, nCounted, ignored, nEmpty, nRoot, tr.immediateSubdirs())
 			if sec.DirForm == 4 {
@@ -501,22 +502,44 @@ func (tr Tree) immediateSubdirs() []string {
 
 // ---- running the tool ----------------------------------------------------------------------
 
-func (tr Tree) dirArg(ws string) string {
+// layout: where the tree is written and how the tool is started. base is a directory of this
+// run alone; the working directory of the tool is base/w except for form 4, where it is the
+// tree's root. (A second tree of the same case is placed relative to the same working directory.)
+func (tr Tree) layout(base string) (root, cwd, arg string) {
+	cwd = filepath.Join(base, "w")
 	switch tr.DirForm {
 	case 1:
-		return filepath.Join(ws, tr.Name)
+		root = filepath.Join(cwd, tr.Name)
+		arg = root
 	case 2:
-		return tr.Name + "/"
+		root = filepath.Join(cwd, tr.Name)
+		arg = tr.Name + "/"
 	case 3:
-		return "./" + tr.Name
+		root = filepath.Join(cwd, tr.Name)
+		arg = "./" + tr.Name
+	case 4:
+		root = filepath.Join(cwd, tr.Name)
+		cwd = root
+		arg = "."
+	case 5:
+		root = filepath.Join(cwd, "up", tr.Name)
+		arg = "up/" + tr.Name
+	case 6:
+		root = filepath.Join(base, tr.Name)
+		arg = "../" + tr.Name
+	default:
+		root = filepath.Join(cwd, tr.Name)
+		arg = tr.Name
 	}
-	return tr.Name
+	return
 }
 
-func (tr Tree) write(ws string) {
-	root := filepath.Join(ws, tr.Name)
-	if err := os.MkdirAll(root, 0755); err != nil {
-		panic(err)
+func (tr Tree) write(base string) {
+	root, cwd, _ := tr.layout(base)
+	for _, d := range []string{cwd, root} {
+		if err := os.MkdirAll(d, 0755); err != nil {
+			panic(err)
+		}
 	}
 	for _, d := range tr.Dirs {
 		if err := os.MkdirAll(filepath.Join(root, filepath.FromSlash(d)), 0755); err != nil {
@@ -530,11 +553,48 @@ func (tr Tree) write(ws string) {
 	cli.WriteTree(root, files)
 }
 
-func (tr Tree) extraArgs() []string {
-	if len(tr.IncludeExt) == 0 {
-		return nil
+// cmdline assembles the arguments: mode flags (and --top-size), DIR, include-ext, spelled as
+// ArgStyle says.
+func (tr Tree) cmdline(arg string, mode ...string) []string {
+	var flags []string
+	for i := 0; i < len(mode); i++ {
+		if mode[i] == "--top-size" && tr.ArgStyle&8 != 0 && i+1 < len(mode) {
+			flags = append(flags, "--top-size="+mode[i+1])
+			i++
+			continue
+		}
+		flags = append(flags, mode[i])
 	}
-	return []string{"--include-ext", strings.Join(tr.IncludeExt, ",")}
+	if len(tr.IncludeExt) > 0 {
+		joined := strings.Join(tr.IncludeExt, ",")
+		switch (tr.ArgStyle >> 1) & 3 {
+		case 1:
+			flags = append(flags, "-i", joined)
+		case 2:
+			flags = append(flags, "--include-ext="+joined)
+		case 3:
+			for _, e := range tr.IncludeExt {
+				flags = append(flags, "--include-ext", e)
+			}
+		default:
+			flags = append(flags, "--include-ext", joined)
+		}
+	}
+	if tr.ArgStyle&1 != 0 {
+		return append(append([]string{"cloc"}, flags...), arg)
+	}
+	return append([]string{"cloc", arg}, flags...)
+}
+
+// languages: the languages of the tree's source files, sorted.
+func (tr Tree) languages() []string {
+	set := map[string]bool{}
+	for _, f := range tr.Files {
+		if f.Lang != "" {
+			set[f.Lang] = true
+		}
+	}
+	return sortedKeys(set)
 }
 
 func noise(line string) bool {
@@ -559,8 +619,9 @@ func describeRun(args []string, res cli.Result) string {
 
 // ---- oracle: by-directory ------------------------------------------------------------------
 
-func checkByDirectory(tr Tree, ws string) string {
-	args := append([]string{"cloc", tr.dirArg(ws), "--by-directory"}, tr.extraArgs()...)
+func checkByDirectory(tr Tree, base, ws string) string {
+	_, _, arg := tr.layout(base)
+	args := tr.cmdline(arg, "--by-directory")
 	res, err := cli.Run("coca", ws, nil, args...)
 	if err != nil {
 		return "HARNESS: cannot run coca: " + err.Error()
@@ -739,8 +800,9 @@ func parseTopStdout(stdout string) (map[string][]topRow, []string, string) {
 	return blocks, order, ""
 }
 
-func checkTopFile(tr Tree, ws string) (msg string, mismatchCommentBlank int) {
-	args := append([]string{"cloc", tr.dirArg(ws), "--top-file", "--top-size", strconv.Itoa(tr.TopSize)}, tr.extraArgs()...)
+func checkTopFile(tr Tree, base, ws string) (msg string, mismatchCommentBlank int) {
+	root, _, arg := tr.layout(base)
+	args := tr.cmdline(arg, "--top-file", "--top-size", strconv.Itoa(tr.TopSize))
 	res, err := cli.Run("coca", ws, nil, args...)
 	if err != nil {
 		return "HARNESS: cannot run coca: " + err.Error(), 0
@@ -757,7 +819,6 @@ func checkTopFile(tr Tree, ws string) (msg string, mismatchCommentBlank int) {
 		return fmt.Sprintf("sort_cloc.json is not a JSON list of language summaries: %v\n%s", err, raw), 0
 	}
 	ctx := "\n" + describeRun(args, res)
-	root := filepath.Join(ws, tr.Name)
 	truth := map[string]File{}
 	for _, f := range tr.Files {
 		truth[f.Path] = f
@@ -899,29 +960,71 @@ func checkTree(tr Tree) pbt.Verdict {
 	defer os.RemoveAll(scratch)
 	// The two reports are produced concurrently, each in its own working directory with its own
 	// copy of the tree (an invocation mostly sleeps: the binary's CPU profiler needs ~0.2 s to stop).
-	ws1, ws2 := filepath.Join(scratch, "by-directory"), filepath.Join(scratch, "top-file")
-	tr.write(ws1)
-	tr.write(ws2)
+	// A second tree of the case is reported afterwards in the same two working directories.
+	base1, base2 := filepath.Join(scratch, "by-directory"), filepath.Join(scratch, "top-file")
+	seq := []Tree{tr}
+	if tr.Second != nil && tr.DirForm != 4 {
+		sec := *tr.Second
+		sec.Second = nil
+		if sec.DirForm == 4 {
+			sec.DirForm = 0
+		}
+		seq = append(seq, sec)
+	}
+	_, cwd1, _ := tr.layout(base1)
+	_, cwd2, _ := tr.layout(base2)
+	for _, x := range seq {
+		x.write(base1)
+		x.write(base2)
+	}
 	var msgTop string
 	var mism int
 	done := make(chan struct{})
 	go func() {
 		defer close(done)
-		msgTop, mism = checkTopFile(tr, ws2)
+		for i, x := range seq {
+			m, n := checkTopFile(x, base2, cwd2)
+			mism += n
+			if m != "" {
+				msgTop = m
+				if i > 0 {
+					msgTop = "second report in the same working directory: " + m + "\nfirst report: coca " + strings.Join(seq[0].cmdline("DIR", "--top-file", "--top-size", strconv.Itoa(seq[0].TopSize)), " ")
+				}
+				return
+			}
+		}
 	}()
-	msgDir := checkByDirectory(tr, ws1)
+	msgDir := ""
+	for i, x := range seq {
+		m := checkByDirectory(x, base1, cwd1)
+		if m != "" {
+			msgDir = m
+			if i > 0 {
+				msgDir = "second report in the same working directory: " + m + "\nfirst report: coca " + strings.Join(seq[0].cmdline("DIR", "--by-directory"), " ")
+			}
+			break
+		}
+	}
 	<-done
+	// the scratch directory has a random name: keep it out of the message (rapid wants the same
+	// message for the same case)
+	clean := func(m string) string {
+		m = strings.ReplaceAll(m, scratch, "<scratch>")
+		return reProfile.ReplaceAllString(m, "profile…")
+	}
 	if msgDir != "" {
-		return pbt.Fail("%s", msgDir)
+		return pbt.Fail("%s", clean(msgDir))
 	}
 	if msgTop != "" {
-		return pbt.Fail("%s", msgTop)
+		return pbt.Fail("%s", clean(msgTop))
 	}
 	if mism > 0 {
 		pbt.Count("files_whose_comment_or_blank_count_differs_from_ground_truth(not asserted)", mism)
 	}
 	return classify(tr)
 }
+
+var reProfile = regexp.MustCompile(`profile\d+|\d{4}/\d\d/\d\d \d\d:\d\d:\d\d|App elapsed: +[0-9.]+[a-zµ]+`)
 
 func classify(tr Tree) pbt.Verdict {
 	v := pbt.Verdict{}
@@ -968,6 +1071,13 @@ func classify(tr Tree) pbt.Verdict {
 		if files == 0 {
 			empty = true
 		}
+		add0 := files > 0 && len(set) == 0
+		if add0 {
+			v.Classes = append(v.Classes, "subdir_with_files_but_nothing_counted")
+		}
+		if strings.ContainsAny(d, " \u00f6") {
+			v.Classes = append(v.Classes, "subdir_name_with_blank_or_non_ascii")
+		}
 		if len(set) > 0 {
 			counted++
 			langSets[strings.Join(sortedKeys(set), ",")] = true
@@ -990,18 +1100,71 @@ func classify(tr Tree) pbt.Verdict {
 	add(len(tr.IncludeExt) > 0, "include_ext")
 	add(len(must) >= 3, "languages>=3")
 	add(tr.DirForm == 1, "absolute_dir_argument")
+	add(tr.DirForm == 4, "dir_argument_is_dot(cwd_inside)")
+	add(tr.DirForm == 5, "dir_argument_two_levels")
+	add(tr.DirForm == 6, "dir_argument_dotdot")
+	add(tr.ArgStyle != 0, "command_line_respelled")
+	add(tr.Second != nil && tr.Second.Name == tr.Name, "second_report_same_tree_other_options")
+	add(tr.Second != nil && tr.Second.Name != tr.Name, "second_report_other_tree")
+	add(tr.TopSize == 0, "top_size_0")
+	add(len(tr.immediateSubdirs()) > 6, "more_than_6_subdirs")
+	maxCode, maxFiles, newLang, nestedIgnored, prefixPair := 0, 0, false, false, false
+	for l, codes := range perLang {
+		if len(codes) > maxFiles {
+			maxFiles = len(codes)
+		}
+		for _, c := range codes {
+			if c > maxCode {
+				maxCode = c
+			}
+		}
+		for i, x := range allLangs {
+			if x == l && i >= 5 {
+				newLang = true
+			}
+		}
+		for m := range perLang {
+			if m != l && strings.HasPrefix(m, l) {
+				prefixPair = true
+			}
+		}
+	}
+	for _, d := range tr.Dirs {
+		if i := strings.Index(d, "/"); i >= 0 && !isIgnoredName(d[:i]) {
+			for _, part := range strings.Split(d[i+1:], "/") {
+				if isIgnoredName(part) {
+					nestedIgnored = true
+				}
+			}
+		}
+	}
+	add(maxCode >= 10, "file_with_10+_code_lines")
+	add(maxCode >= 100, "file_with_100+_code_lines")
+	add(maxFiles > 8, "more_than_8_files_of_one_language")
+	add(newLang, "language_beyond_the_first_five")
+	add(prefixPair, "language_name_prefix_of_another")
+	add(nestedIgnored, "ignored_name_below_a_subdirectory")
 	truncates, tie := false, false
 	for _, codes := range perLang {
 		if len(codes) > tr.TopSize {
 			truncates = true
 			sort.Sort(sort.Reverse(sort.IntSlice(codes)))
-			if codes[tr.TopSize-1] == codes[tr.TopSize] {
+			if tr.TopSize >= 1 && codes[tr.TopSize-1] == codes[tr.TopSize] {
 				tie = true
 			}
 		}
 	}
 	add(truncates, "top_size_truncates")
 	add(tie, "tie_at_the_cut")
+	seenClass := map[string]bool{}
+	var uniq []string
+	for _, c := range v.Classes {
+		if !seenClass[c] {
+			seenClass[c] = true
+			uniq = append(uniq, c)
+		}
+	}
+	v.Classes = uniq
 	// canonical form: shape and figures, not the texts
 	var parts []string
 	for _, f := range tr.Files {
